@@ -211,6 +211,9 @@ def check_tangent_normal(case, ctx):
     ctx.label("list-form", case["as_list"])
     skipped = 0
     if d["kind"] == "curve":
+        if nrm and case["as_list"] and any(_norm2(D[(1,)]) < F(1, 10 ** 12) for D, _ in exact):
+            # vector_normalize raises on a zero vector: no unit tangent exists there (outside the property's domain)
+            raise Skip("degenerate tangent")
         if case["as_list"]:
             res = operations.tangent(obj, [us[0] for us in plist], normalize=nrm)
             ctx.check(len(res) == len(plist), "tangent-list-size", "tangent list form returned %d results" % len(res))
